@@ -105,11 +105,18 @@ def step_checks(agg, obj, depth, out):
             ok(f"vector.{lab}", dict(case, op=lab), nm, v._name, ("V", v) if lab == "write-promote" else None)
         # binary math / comparison between vectors: unnamed
         for other in NAMES:
-            w = Vector(list(vals), name=fresh(other))
-            for opn, op in (("add", operator.add), ("mul", operator.mul), ("sub", operator.sub), ("eq", operator.eq), ("lt", operator.lt), ("truediv", operator.truediv)):
-                r = attempt(f"vector.{opn}", case, lambda: op(x, w))
-                if r is not None and hasattr(r, "_name"):
-                    ok(f"vector.binary.{opn}", dict(case, op=opn, right_name=other), None, r._name)
+            # the right operand over several element kinds: same kind, wider kind, with None, and kinds for which the elementwise
+            # operation is not defined (str against int): whatever vector comes back, it is unnamed
+            for wk, wvals in (("same", list(vals)), ("float", [0.5] * len(vals)), ("str", ["a"] * len(vals)), ("with-none", [None] + list(vals[1:])),
+                              ("object", [1, "a", None][:len(vals)] + [2] * max(0, len(vals) - 3))):
+                if wk != "same" and other not in (None, "x", "y"):
+                    continue
+                w = Vector(list(wvals), name=fresh(other))
+                for opn, op in (("add", operator.add), ("mul", operator.mul), ("sub", operator.sub), ("eq", operator.eq), ("lt", operator.lt), ("truediv", operator.truediv)):
+                    for order in (("xw",) if wk == "same" else ("xw", "wx")):
+                        r = attempt(f"vector.{opn}", case, (lambda: op(x, w)) if order == "xw" else (lambda: op(w, x)))
+                        if r is not None and hasattr(r, "_name"):
+                            ok(f"vector.binary.{opn}" + ("" if wk == "same" else f".{wk}"), dict(case, op=opn, right_name=other, right_kind=wk, order=order), None, r._name)
         # structure from vectors
         for other in NAMES:
             w = Vector(list(vals), name=other)
